@@ -13,12 +13,13 @@ func init() {
 	register(&PropSpec{
 		ID:    "C13",
 		Title: "A transient lower-layer failure fails one call and nothing else",
-		Explanation: "Decided (structural necessary conditions): G-gate — every syncutil.Gate slot taken in the storage, sorted-KV, schema, index and server packages is released on every CFG path (call, defer, or hand-over to a goroutine all of whose paths release), through acquiring/releasing wrappers; G-lock — every sync.Mutex/RWMutex Lock/RLock in those packages is unlocked on every path; G-rollback — in diskpacked.append no (transitive) writer of s.writer lies between the capture of the undo offset and the undo; G-tmp — files.ReceiveBlob registers the temp-file cleanup before any later return; G-errval — in the storage packages a pointer/interface co-returned with an error is used only where that error is known nil; G-chan — a channel with several sender goroutines is closed only after all senders joined; G-enum — enumerators close their channel on every path (rule E-close, shared with C01). " +
+		Explanation: "Decided (structural necessary conditions): G-gate — every syncutil.Gate slot taken in the storage, sorted-KV, schema, index and server packages is released on every CFG path (call, defer, or hand-over to a goroutine all of whose paths release), through acquiring/releasing wrappers; G-lock — every sync.Mutex/RWMutex Lock/RLock in those packages is unlocked on every path; G-rollback — in diskpacked.append no (transitive) writer of s.writer lies between the capture of the undo offset and the undo; G-tmp — files.ReceiveBlob registers the temp-file cleanup before any later return; G-errval — in the storage packages a pointer/interface co-returned with an error is used only where that error is known nil; G-chan — a channel with several sender goroutines is closed only after all senders joined; G-enum — enumerators close their channel on every path (rule E-close, shared with C01); G-recover — what a store's own recovery procedure reads is destroyed only after its replacement is durable, on every path including the error edges of the look-ups and uploads in between (rules X-compact of C11, Z-order of C04, D-dele-order/D-destroy/F-destroy of C03, shared). " +
 			"NOT decided: bounded completion time, agreement with the reference map after the fault, success of recovery procedures, any concrete fault schedule.",
 		RuleDocs: map[string]string{
 			"G-gate":     "H4 pairing over every (*syncutil.Gate).Start call (and acquiring wrappers) in pkg/blobserver/..., pkg/sorted/..., pkg/schema, pkg/index, pkg/server: all paths to exits pass Done on the same gate (by access path), a deferred Done, or a spawned closure that releases on all its paths",
 			"G-lock":     "H4 pairing over every Lock/RLock on sync.Mutex/RWMutex in the same packages",
 			"G-rollback": "typestate: between capture of origOffset and the Seek/Truncate undo in diskpacked.(*storage).append no call may (transitively) assign s.writer",
+			"G-recover":  "shared obligations of C11 X-compact, C04 Z-order, C03 D-dele-order/D-destroy/F-destroy: the data a store's own recovery procedure reads (small meta blobs, loose blobs, pack extents, final blob files) is destroyed only after its replacement is durable and only by the removal entry points, on every path including error edges",
 			"G-tmp":      "files.(*Storage).ReceiveBlob: after TempFile succeeds, a deferred cleanup that removes the temp file unless a success flag is set is registered before any further return",
 			"G-errval":   "contradiction rule: a pointer/interface result co-returned with an error is dereferenced only where the error is known nil",
 			"G-chan":     "a channel with >=2 sender goroutines is closed only after joining all senders",
@@ -76,6 +77,46 @@ func runC13(p *Program, r *Reporter) {
 	ruleGErrval(p, r)
 	ruleGChan(p, r)
 	ruleEClose(p, r, "G-enum")
+	ruleGRecover(p, r)
+}
+
+// ruleGRecover reports, under C13, the rules of C03/C04/C11 that decide "what a
+// store can be rebuilt from is destroyed only after its replacement is durable,
+// on every path - error edges included": a transient failure (an index read
+// error, a failed upload, a failed commit) between the two must fail that call
+// only and must not take away the only record of an acknowledged blob. The
+// obligations are the originals (same analysis, same constructs, prefixed with
+// the rule they come from); they are shared, not re-implemented, like
+// E-close/G-enum.
+func ruleGRecover(p *Program, r *Reporter) {
+	const rule = "G-recover"
+	floor := 0
+	share := func(from string, want map[string]bool, run func(sub *Reporter)) {
+		sub := NewReporter(from, p)
+		run(sub)
+		for _, o := range sub.Obls {
+			if !want[o.Rule] {
+				continue
+			}
+			r.add(rule, o.Rule+":"+o.Construct, o.Site, o.Status, o.Nontrivial, o.Detail)
+		}
+		for k := range want {
+			floor += sub.floors[k]
+		}
+	}
+	// encrypt: small meta blobs are removed only after the packed meta blob that
+	// holds every one of their rows was stored (also on index look-up failures)
+	share("C11", map[string]bool{"X-compact": true}, func(sub *Reporter) { c11RuleCompact(p, sub, c11BuildFlow(p)) })
+	// blobpacked: loose blobs are removed only after the zip and its meta rows are committed
+	share("C04", map[string]bool{"Z-order": true}, func(sub *Reporter) { c04ZOrder(p, sub, c04RowWriters(p, sub)) })
+	// diskpacked/files: who may destroy bytes of a pack / a final blob file, and in which order
+	share("C03", map[string]bool{"D-dele-order": true, "D-destroy": true, "F-destroy": true}, func(sub *Reporter) {
+		c03RuleDDeleOrder(p, sub)
+		dm := c03GetDestroyModel(p)
+		c03RuleFDestroy(p, sub, dm)
+		c03RuleDDestroy(p, sub, dm)
+	})
+	r.Floor(rule, floor)
 }
 
 func ruleGGate(p *Program, r *Reporter, fns []*ssa.Function) {
